@@ -28,6 +28,9 @@ type c12Case struct {
 	Reqs   []c12Req `json:"reqs"`
 	// Extra users with generated accounter blocks (names may repeat or be empty, types differ)
 	Extra []cfggen.User `json:"extra,omitempty"`
+	// Syslog: the server also registers the syslog accounter (writing to a socket the harness owns), so
+	// users whose accounter is of type SYSLOG are accountable too
+	Syslog bool `json:"syslog,omitempty"`
 }
 
 // the fixed configuration of this check: who has which accounter
@@ -54,7 +57,7 @@ func (c c12Case) hasFileAccounter(user string) bool {
 	cfg := c12Config()
 	cfg.Users = append(cfg.Users, c.Extra...)
 	u, ok := cfg.ScopeUsers(cfggen.ScopeA)[user]
-	return ok && u.Acct != nil && u.Acct.Type == cfggen.AcctFile
+	return ok && u.Acct != nil && (u.Acct.Type == cfggen.AcctFile || (c.Syslog && u.Acct.Type == cfggen.AcctSyslog))
 }
 
 func genC12Extra(t *rapid.T) []cfggen.User {
@@ -102,6 +105,7 @@ func genNastyText(t *rapid.T, label string, max int) model.B {
 
 func genC12(t *rapid.T) c12Case {
 	c := c12Case{Format: rapid.SampledFrom([]string{"yaml", "json"}).Draw(t, "format"), Extra: genC12Extra(t)}
+	c.Syslog = rapid.IntRange(0, 3).Draw(t, "syslog_accounter") == 0
 	n := rapid.IntRange(1, 6).Draw(t, "nreqs")
 	for i := 0; i < n; i++ {
 		r := c12Req{Seq: rapid.SampledFrom([]byte{1, 1, 3, 5}).Draw(t, "seq")}
@@ -111,7 +115,7 @@ func genC12(t *rapid.T) c12Case {
 			Priv:    rapid.ByteRange(0, 15).Draw(t, "priv"),
 			AType:   rapid.SampledFrom(authenTypes0).Draw(t, "atype"),
 			Service: rapid.SampledFrom(authenServices).Draw(t, "service"),
-			User:    model.B(rapid.SampledFrom([]string{"alice", "alice", "dave", "a%sb", "bob", "carol", "erin", "mallory", "", "x0", "x1", "x2", "x3", "x0", "x1"}).Draw(t, "user")),
+			User:    model.B(rapid.SampledFrom([]string{"alice", "alice", "dave", "a%sb", "bob", "carol", "carol", "carol", "erin", "mallory", "", "x0", "x1", "x2", "x3", "x0", "x1"}).Draw(t, "user")),
 			Port:    genNastyText(t, "port", 255),
 			RemAddr: genNastyText(t, "rem", 255),
 		}
@@ -211,7 +215,7 @@ func runC12(t failer, c c12Case) {
 	}
 	cfg := c12Config()
 	cfg.Users = append(cfg.Users, c.Extra...)
-	env, err := startRef(cfg, refOpts{format: c.Format, recover: true})
+	env, err := startRef(cfg, refOpts{format: c.Format, recover: true, syslog: c.Syslog})
 	if err != nil {
 		t.Fatalf("HARNESS-BUG: fixed configuration refused: %v", err)
 	}
@@ -244,6 +248,10 @@ func runC12(t failer, c c12Case) {
 			t.Fatalf("%v", err)
 		}
 		lines := env.sink.take()
+		var viaSyslog []string
+		if env.syslogd != nil {
+			viaSyslog = env.syslogd.drain()
+		}
 		if closed {
 			// a truncated body can look like a key mismatch (C19): nothing to check for accounting
 			ev.Class("closed(key-mismatch-lookalike)")
@@ -280,8 +288,16 @@ func runC12(t failer, c c12Case) {
 			continue
 		}
 		ev.Class("reply:SUCCESS")
-		if len(lines) != 1 {
-			fail("record-count", "request %d acknowledged with SUCCESS but %d records reached the sink", i, len(lines))
+		if len(lines)+len(viaSyslog) != 1 {
+			fail("record-count", "request %d acknowledged with SUCCESS but %d records reached the sink (%d of them through syslog)", i, len(lines)+len(viaSyslog), len(viaSyslog))
+		}
+		if len(viaSyslog) == 1 {
+			// the datagram was already queued when the reply had arrived (drain does not wait for it)
+			ev.Class("record:via-syslog-accounter")
+			if rec := parseRecord(viaSyslog[0]); !rec.equals(sent) {
+				fail("record-differs", "request %d: the syslog message does not decode to the request\n line=%q\n req =%s", i, viaSyslog[0], js(sent))
+			}
+			continue
 		}
 		writes := d.c.Writes()
 		if len(writes) <= nw || lines[0].Stamp >= writes[nw].Stamp {
